@@ -286,6 +286,8 @@ def c20(pid, tier, replay):
             https += [(0, 2500), (2400, 6000), (3500, 9500), (3500, 4500), (200, 100)]
         for j, (busy, cancel) in enumerate(https):
             scen.append({"kind": "http", "id": "C20-http-%02d" % j, "busy_ms": busy, "cancel_ms": cancel})
+        # a request that is still being handled when the task is cancelled (the stop does not wait for it)
+        scen.append({"kind": "http", "id": "C20-http-inflight", "busy_ms": 0, "cancel_ms": 700, "inflight": True})
     nshards = min(vf.NCPU, max(1, len(scen) // 60))
     shards = [scen[i::nshards] for i in range(nshards)]
 
